@@ -133,9 +133,16 @@ SvcInject(n, shape) ==
     /\ Has("inject") /\ UNCHANGED open
     /\ Emit([op |-> "inject", n |-> n, shape |-> shape], 1, 0)
 
-SvcStop(kind) ==
+(* Stop / loss of the messaging connection.  drain = what the messaging client still holds in its receive buffer *)
+(* and hands over while it is being closed (the NATS adapter's Close drains its channel before it returns): a    *)
+(* custom event and / or the answer to the oldest outstanding request.                                            *)
+SvcStop(kind, drain) ==
     /\ Has("stop") /\ UNCHANGED open
-    /\ Emit([op |-> kind], 0, 0)
+    /\ Emit(IF drain = <<>> THEN [op |-> kind] ELSE [op |-> kind, drain |-> drain], 0, 0)
+
+Drains == {<<>>} \cup {<<[op |-> "event", n |-> n, ev |-> "custom"]>> : n \in Names}
+                 \cup {<<[op |-> "reply", t |-> "", pick |-> 0]>>}
+                 \cup {<<[op |-> "event", n |-> n, ev |-> "custom"], [op |-> "reply", t |-> "", pick |-> 0]>> : n \in Names}
 
 Quiesce ==
     /\ Has("quiesce") /\ UNCHANGED open
@@ -166,11 +173,12 @@ NextC(cls) ==
             \/ \E n \in Names, a \in 0..1, k \in Keys, v \in Vals : SvcMutate(n, a, k, v)
             \/ \E res \in Patterns, acc \in Patterns : SvcReset(res, acc)
             \/ \E c \in Conns, t \in Tokens, tid \in {"tid1", "tid2", ""} : SvcToken(c, t, tid)
-            \/ \E tids \in {<<"tid1">>, <<"tid2">>, <<"tid1", "tid2">>} : SvcTokenReset(tids)
+            \/ \E tids \in {<<"tid1">>, <<"tid2">>, <<"tid1", "tid2">>, <<"", "tid1">>, <<"">>} : SvcTokenReset(tids)
       [] cls = "misc" ->
             \/ \E c \in Conns : CliClose(c)
             \/ \E ms \in {1000, 6000} : Time(ms)
-            \/ \E kind \in {"stop", "mqlost", "start", "start"} : SvcStop(kind)
+            \/ \E kind \in {"stop", "mqlost"}, d \in Drains : SvcStop(kind, d)
+            \/ SvcStop("start", <<>>)
             \/ Quiesce
       [] OTHER -> FALSE
 
